@@ -52,32 +52,30 @@ def inline_all_but(names):
 
 
 def declared_entries(db, fns):
-    """[(member, id, active)] in declaration order, from the ClearEntries / ReadEntry instantiations reachable from ReadPayload"""
-    res = []
-    rp = pick(fns, 'ReadPayload')
-    if not rp:
-        return None
-    f = rp[0]
-    # walk ClearEntries recursion: Index<Count> down to 0 gives members in reverse order
-    def walk(fn, acc):
-        for c in ir.calls(fn['body']):
-            cal = db.callee(fn, c)
-            if cal is None:
+    """[(member, id, active, T)] in declaration order - taken from the table's EntryList<HashValue<H>, MemberPointer<...>...>
+    type (what NOP_TABLE declares), NOT from the encoder's own recursion, so a helper that skips an entry is noticed"""
+    tname = fns[0]['recargs'][0]
+    for q, r in db.records.items():
+        if r.get('rect') != 'nop::EntryList' or len(r.get('recargs', [])) < 1:
+            continue
+        pack = r['recargs'][1] if len(r['recargs']) > 1 else '<>'
+        if ('&' + tname + '::') not in pack and not (pack.strip() in ('<>', '') and False):
+            continue
+        inner = pack.strip()
+        if inner.startswith('<') and inner.endswith('>'):
+            inner = inner[1:-1]
+        out = []
+        for mp in encrules.split_args(inner):
+            if not mp.startswith('nop::MemberPointer<'):
                 continue
-            if cal['n'] == 'ClearEntries' and cal is not fn:
-                walk(cal, acc)
-            elif cal['n'] == 'Resolve' and (c.get('callee', {}).get('q', '')).startswith('nop::MemberPointer<'):
-                acc.append((encrules.member_id(c['callee']['q']), c['callee']['ret']))
-    acc = []
-    for c in ir.calls(f['body']):
-        cal = db.callee(f, c)
-        if cal is not None and cal['n'] == 'ClearEntries':
-            walk(cal, acc)
-    out = []
-    for m, ret in acc:
-        info = entry_info(ret)
-        out.append((m, info[1] if info else None, info[2] if info else None, info[0] if info else None))
-    return out
+            args = encrules.split_args(mp[len('nop::MemberPointer<'):-1])
+            member = [a for a in args if a.startswith('&')][0].rsplit('::', 1)[-1]
+            et = args[0]
+            et = et[:et.rfind(' ' + tname + '::*')] if (' ' + tname + '::*') in et else et
+            info = entry_info(et)
+            out.append((member, info[1] if info else None, info[2] if info else None, info[0] if info else None))
+        return out
+    return None
 
 
 def rules(chk, db, want, prefix=''):
@@ -110,7 +108,7 @@ def rules(chk, db, want, prefix=''):
             for f in pick(fns, 'WritePayload')[:1]:
                 where = facts.site(f) + ' <%s>' % short
                 try:
-                    paths = symx.paths_of(db, f, inline_all_but({'WriteEntry', 'WriteEntries'}))
+                    paths = symx.paths_of(db, f, inline_all_but({'WriteEntry'}))
                 except symx.Unsupported as e:
                     chk.unanalysable(R('TW'), where, str(e))
                     continue
@@ -121,7 +119,16 @@ def rules(chk, db, want, prefix=''):
                     why.append('no successful path')
                 else:
                     v = [it for it in encrules.io_view(full) if it[0] == 'ENC']
-                    calls = [e for e in full.events if e.kind == 'call' and e.name == 'WriteEntries']
+                    calls = [e for e in full.events if e.kind == 'call' and e.name == 'WriteEntry']
+                    order = []
+                    last_resolve = None
+                    for e in full.events:
+                        if e.kind == 'call' and e.name == 'Resolve':
+                            last_resolve = encrules.member_id(getattr(e, 'q', ''))
+                        elif e.kind == 'call' and e.name == 'WriteEntry':
+                            order.append(last_resolve)
+                    if order != [d[0] for d in decl]:
+                        why.append('entries written in order %s, declared %s' % (order, [d[0] for d in decl]))
                     if len(v) != 2 or v[0][1] != 'unsigned long' or v[1][1] != 'unsigned long':
                         why.append('expected hash (uint64) then count (SizeType), found %s' % [it[1] for it in v])
                     else:
@@ -132,8 +139,8 @@ def rules(chk, db, want, prefix=''):
                         hv = symx.as_poly(v[0][3][0])
                         if not hv.is_const():
                             why.append('hash written is not the compile-time table hash')
-                    if len(calls) != 1 or full.events.index(calls[0]) < (v[1][4] if len(v) == 2 else 0):
-                        why.append('entries are not written after hash and count')
+                    if len(calls) != len(decl) or (calls and full.events.index(calls[0]) < (v[1][4] if len(v) == 2 else 0)):
+                        why.append('entries are not all written after hash and count')
                 chk.decide(not why, R('TW'), where, 'Encoding<%s>::WritePayload: %s' % (short, '; '.join(why) if why else 'hash, count of non-empty entries, entries'),
                            function=ir.fn_label(f))
             # entry order
